@@ -169,6 +169,11 @@ class PUSO(BO, PUSOMatrix):
         P = puso_to_pubo(self)
         P._mapping = self.mapping
         P._reverse_mapping = self.reverse_mapping
+        # the PUSO may know of more variables than its boolean image has (its
+        # bookkeeping is an upper bound until refreshed); ancillas must be
+        # labeled after every label of the mapping.
+        P._variables = self.variables
+        P._num_binary_variables = self.num_binary_variables
         return P
 
     def to_pubo(self, deg=None, lam=None, pairs=None):
